@@ -94,6 +94,14 @@ CHECKS.update({
         design='4/C19'),
 })
 
+CHECKS.update({
+    'C16': dict(level='other', technique='abstract-interpretation totality sweep over all externally reachable functions + path-sensitive decoder-precondition proofs + cross-profile MIR diff',
+        text=('Every externally reachable function with posit / quire / integer / float parameters is swept on a partition of its inputs for determinate panics, failing overflow / shift / bounds assertions and '
+              'non-termination (findings keyed by failing site); whole-body todo!() stubs and the clamp contract are exempt. The bodies are identical across build profiles up to overflow assertions '
+              '(no debug_assert / cfg(debug_assertions)). The ~2800 overflow assertions of the general arithmetic paths are NOT discharged. 29 genuine defects are listed as known findings.'),
+        design='4/C16'),
+})
+
 NOT_APPLICABLE = {
 }
 
